@@ -5,6 +5,116 @@ From PV Require Import Base.Prelude Base.Slice Model.Parse Spec.RFC Model.ParseK
 Open Scope N_scope.
 Open Scope res_scope.
 
+(* ---------- the list-driven classification of the model, unfolded into explicit chains ----------
+   Model/Parse.v selects the cases of the three switches through the row lists ethertype_rows, ipproto_rows,
+   udp_port_rows.  The proofs below walk the equivalent if-chains. *)
+Definition udp_class_chain (sp dp : N) : option N :=
+  if (sp =? 443) || (dp =? 443) then Some PayloadSSL
+  else if (dp =? 67) || (dp =? 68) then Some PayloadDHCP4
+  else if (dp =? 546) || (dp =? 547) then Some PayloadDHCP6
+  else if (sp =? 53) || (dp =? 53) then Some PayloadDNS
+  else if (sp =? 5353) || (dp =? 5353) then Some PayloadMDNS
+  else if (sp =? 5355) || (dp =? 5355) then Some PayloadLLMNR
+  else if (sp =? 123) || (dp =? 123) then Some PayloadNTP
+  else if (sp =? 1900) || (dp =? 1900) then Some PayloadSSDP
+  else if (sp =? 3702) || (dp =? 3702) then Some PayloadWSDP
+  else if (dp =? 137) || (dp =? 138) then Some PayloadNBNS
+  else if (dp =? 32412) || (dp =? 32414) then Some PayloadPlex
+  else if (sp =? 10001) || (dp =? 10001) then Some PayloadUbiquiti
+  else None.
+
+
+Lemma udp_class_chain_eq sp dp : udp_class sp dp = udp_class_chain sp dp.
+Proof.
+  unfold udp_class, udp_class_chain, udp_port_rows, first_row, row_matches, existsb.
+  repeat (match goal with |- context [?a =? ?b] => destruct (a =? b) end; cbn [orb]; try reflexivity).
+Qed.
+
+Definition parse_proto_chain (fx : fixes) (s : slice) (f : frame) (proto : N) : res frame :=
+  if proto =? 17 then                                   (* IPPROTO_UDP *)
+    let f := set_id f PayloadUDP in
+    p <- payload_view s f ;;
+    _ <- udp_is_valid p ;;
+    sp <- src_port p ;;
+    dp <- dst_port p ;;
+    let f := set_ports (set_offU f (f_offP f)) sp dp in
+    match udp_class sp dp with
+    | None => Ok f
+    | Some id => Ok (set_offP (set_id f id) (f_offP f + 8))
+    end
+  else if proto =? 6 then                               (* IPPROTO_TCP *)
+    let f := set_id f PayloadTCP in
+    p <- payload_view s f ;;
+    _ <- tcp_is_valid fx p ;;
+    sp <- src_port p ;;
+    dp <- dst_port p ;;
+    Ok (set_ports (set_offT f (f_offP f)) sp dp)
+  else if proto =? 1 then                               (* IPPROTO_ICMP *)
+    p <- payload_view s f ;;
+    _ <- icmp_is_valid p ;;
+    t <- icmp_type p ;;
+    f <- (if t =? 0 then                                (* ICMP4TypeEchoReply *)
+            _ <- icmp_is_valid p ;;                     (* ICMPEcho.IsValid: same test *)
+            id <- echo_id p ;; Ok (set_echo f (Some id))
+          else Ok f) ;;
+    Ok (set_id f PayloadICMP4)
+  else if proto =? 58 then                              (* IPPROTO_ICMPV6 *)
+    p <- payload_view s f ;;
+    _ <- icmp_is_valid p ;;
+    t <- icmp_type p ;;
+    f <- (if t =? 129 then                              (* ICMP6TypeEchoReply *)
+            _ <- icmp_is_valid p ;;
+            id <- echo_id p ;; Ok (set_echo f (Some id))
+          else Ok f) ;;
+    Ok (set_id f PayloadICMP6)
+  else if proto =? 2 then                               (* IPPROTO_IGMP *)
+    Ok (set_id f PayloadIGMP)
+  else Ok f.
+
+
+Lemma parse_proto_chain_eq fx s f proto : parse_proto fx s f proto = parse_proto_chain fx s f proto.
+Proof.
+  unfold parse_proto, parse_proto_chain, ipproto_rows, lookup_row.
+  repeat (match goal with |- context [proto =? ?k] => destruct (proto =? k) end; try reflexivity).
+Qed.
+
+Definition parse_chain (c : cfg) (s : slice) : res frame :=
+  _ <- ether_is_valid s ;;
+  smac <- ether_src s ;;
+  dmac <- ether_dst s ;;
+  hl <- ether_header_len s ;;
+  if Nat.ltb (len s) hl then Err EFrameLen else        (* tagged header longer than the frame: ErrFrameLen (sentinel) *)
+  let f := mkFrame 0 0 0 0 hl PayloadEther (mkAddr smac [] 0) (mkAddr dmac [] 0) None None in
+  if negb (is_unicast_mac smac) then Ok f else
+  et <- ether_type s ;;
+  if et <? 1536 then Ok (set_id f Payload8023) else
+  if et =? 2048 then parse_ip4 c s f                      (* ETH_P_IP *)
+  else if et =? 34525 then parse_ip6 c s f                (* ETH_P_IPV6 0x86dd *)
+  else if et =? 2054 then parse_arp c s f                 (* ETH_P_ARP 0x0806 *)
+  else if et =? 34824 then parse_leaf s f PayloadEthernetPause   (* 0x8808 *)
+  else if et =? 34969 then parse_leaf s f PayloadRRCP            (* 0x8899 *)
+  else if et =? 35020 then parse_leaf s f PayloadLLDP            (* 0x88cc *)
+  else if et =? 35085 then parse_leaf s f Payload802_11r         (* 0x890d *)
+  else if et =? 35130 then parse_leaf s f PayloadIEEE1905        (* 0x893a *)
+  else if et =? 26992 then parse_leaf s f PayloadSonos           (* 0x6970 *)
+  else if et =? 34826 then parse_leaf s f Payload880a            (* 0x880a *)
+  else Ok f.
+
+Lemma parse_chain_eq c s : parse c s = parse_chain c s.
+Proof.
+  unfold parse, parse_chain.
+  destruct (ether_is_valid s); cbn [bind]; try reflexivity.
+  destruct (ether_src s); cbn [bind]; try reflexivity.
+  destruct (ether_dst s); cbn [bind]; try reflexivity.
+  destruct (ether_header_len s); cbn [bind]; try reflexivity.
+  destruct (Nat.ltb (len s) a2); try reflexivity.
+  destruct (negb (is_unicast_mac a0)); try reflexivity.
+  destruct (ether_type s) as [et| | |]; cbn [bind]; try reflexivity.
+  destruct (et <? 1536); try reflexivity.
+  unfold ethertype_rows, lookup_row.
+  repeat (match goal with |- context [et =? ?k] => destruct (et =? k) end; try reflexivity).
+Qed.
+
 (* ---------- slice facts ---------- *)
 Lemma cap_mk a n : cap (mkSlice a n) = List.length a.
 Proof. reflexivity. Qed.
@@ -36,7 +146,7 @@ Ltac rd := first
 Lemma parse_proto_safe fx s f proto :
   wf s -> (0 < f_offP f)%nat -> (f_offP f <= len s)%nat -> safe (parse_proto fx s f proto).
 Proof.
-  intros Hwf H0 H1. unfold parse_proto.
+  intros Hwf H0 H1. rewrite parse_proto_chain_eq. unfold parse_proto_chain.
   repeat match goal with |- context [if ?c then _ else _] => destruct c end;
   try apply safe_Ok;
   (rewrite payload_view_pos by (cbn; lia)); cbn [bind];
@@ -109,7 +219,7 @@ Qed.
 
 Theorem parse_no_panic c s : wf s -> safe (parse c s).
 Proof.
-  intros Hwf. unfold parse, ether_is_valid.
+  intros Hwf. rewrite parse_chain_eq. unfold parse_chain, ether_is_valid.
   destruct (Nat.leb_spec 14 (len s)) as [Hlen|Hlen]; cbn [bind]; [|apply safe_Err].
   unfold ether_src, ether_dst, ether_header_len, ether_type, bytes_at.
   repeat (rd; cbn [bind]). change (12 + 1)%nat with 13%nat.
